@@ -231,7 +231,12 @@ func tableCatalog(db *sql.DB, name, createSQL string) (string, error) {
 		if k := strings.IndexByte(base, '('); k >= 0 {
 			base = strings.TrimSpace(base[:k])
 		}
+		// A quoted text keeps its letter case ('Draft' is not 'draft'); anything else (keywords,
+		// numbers, expressions) is compared without case, quoting and blanks.
 		def := norm(stripParens(dflt))
+		if d := strings.TrimSpace(dflt); len(d) >= 2 && d[0] == '\'' && d[len(d)-1] == '\'' {
+			def = d
+		}
 		// On a column without text or blob affinity the spelling of a numeric default (1.0, 1.50,
 		// .5, 1e5) is not part of the schema: the number is.
 		if up := strings.ToUpper(base); !strings.Contains(up, "CHAR") && !strings.Contains(up, "CLOB") && !strings.Contains(up, "TEXT") && !strings.Contains(up, "BLOB") && up != "" {
